@@ -40,8 +40,9 @@ def gen_case(rng, tier, idx):
 
 
 def gen_name(rng):
-    n = rng.choice([1, 1, 1, 2, 2, 3])
-    name = tuple(rng.choice(PARTS) for _ in range(n))
+    n = rng.choice([1, 1, 1, 2, 2, 3, 3, 4, 6])
+    parts = PARTS if rng.random() < 0.9 else PARTS + [255, 256, 257, 2 ** 64, "a" * 40, "A", "á"]
+    name = tuple(rng.choice(parts) for _ in range(n))
     if n == 1 and isinstance(name[0], str) and rng.random() < 0.4:
         return name[0]          # plain string form
     return name
